@@ -23,7 +23,7 @@ import sys
 
 from lib.core import exc_name, idset
 from props import c15
-from props.c15 import enc, dec
+from props.c15 import enc, dec, twice_globs, glob_classes, TWICE_WORDS, HIGH_WORDS, HIGH_CHARS
 
 ID = "C03"
 AUDIT_IMPORTS = ["HypatiaProofs.Properties.C03"]
@@ -60,6 +60,9 @@ SPACES = [c for c in range(sys.maxunicode + 1) if re.match(r"\s", chr(c))]
 BASE_WORDS = ["apple", "app", "apply", "ape", "bat", "bath", "cat", "cot", "cut", "dog", "x1", "a_b", "café", "straße",
               "中文", "zed", "w1", "w130", "ab", "abc", "b"]
 SEPS = [" ", " ", " ", "  ", ", ", ". ", "-", "\n", "\t", " ", "/", "'"]
+ZERO_TEXTS = ["", "", " ", "\n\t", "the", "The AND of", "and the", "... - !", ", ", "-", "'", "a", "of\nthe"]
+
+
 PIPELINES = {"default": ["splitter", "case", "stop"], "nostop": ["splitter", "case"],
              "single": ["splitter", "case", "single"], "html": ["html", "stop"]}
 QENTRY = ["apply", "applyContains", "applyEq", "contains", "eq"]
@@ -264,15 +267,60 @@ def q_atom(rng, ctx):
     if r < 0.7:
         return '"%s"' % " ".join(rng.choice(words) for _ in range(rng.randrange(2, 4)))
     if r < 0.88:
-        w = rng.choice(words)
-        k = rng.randrange(1, len(w) + 1)
-        return rng.choice([w[:k] + "*", w[:k] + "?" + w[k + 1:], w[:1] + "*" + w[-1:], w + "*", w[:k] + "*" + "?",
-                           w[:1] + "?" * (len(w) - 1)])
+        return q_glob(rng, words)
     if r < 0.93:
         return rng.choice(["unknownword", "zzz", "q", "nope*", "f00003", "f00131"])
     if r < 0.97:
         return rng.choice(stops)
     return '"%s* %s"' % (rng.choice(words)[:2], rng.choice(words))      # glob character inside a phrase
+
+
+def q_glob(rng, words):
+    special = [w for w in words if twice_globs(w) or any(ord(c) > 0xFF for c in w[1:])]
+    w = rng.choice(special) if special and rng.random() < 0.45 else rng.choice(words)
+    k = rng.randrange(1, len(w) + 1)
+    tw = twice_globs(w)
+    if tw and rng.random() < 0.55:
+        return rng.choice(tw)               # no '*': only the word's tail fits
+    hi = [i for i, c in enumerate(w) if i > 0 and ord(c) > 0xFF]
+    if hi and rng.random() < 0.6:
+        i = rng.choice(hi)                  # the literal prefix ends right before a character > U+00FF
+        return w[:i] + rng.choice(["*", "?" + w[i + 1:], "?" * (len(w) - i), "*" + w[-1:], "?*", "*?"])
+    return rng.choice([w[:k] + "*", w[:k] + "?" + w[k + 1:], w[:1] + "*" + w[-1:], w + "*", w[:k] + "*" + "?",
+                       w[:1] + "?" * (len(w) - 1), w[:k] + "?" * (len(w) - k), w[:k] + "?" * (len(w) - k + 1)])
+
+
+def special_words(rng, words):
+    """1-3 words of each special class: static ones and ones derived from the case's own words"""
+    out = []
+    if rng.random() < 0.4:
+        for _ in range(rng.randrange(1, 4)):
+            if rng.random() < 0.5:
+                out.append(rng.choice(TWICE_WORDS))
+            else:
+                w = rng.choice(words)
+                k = rng.randrange(1, min(len(w), 3) + 1)
+                out.append(w[:k] + rng.choice(["", "x", w[k:]]) + w[:k] + rng.choice(["a", "1", w[k:k + 1] + "z", w[-1:]]))
+    if rng.random() < 0.4:
+        for _ in range(rng.randrange(1, 4)):
+            if rng.random() < 0.5:
+                out.append(rng.choice(HIGH_WORDS))
+            else:
+                w = rng.choice(words)
+                k = rng.randrange(1, len(w) + 1)
+                out.append(w[:k] + rng.choice(HIGH_CHARS) + rng.choice(["", "", w[k:], "z"]))
+    return [w for w in out if w not in words]
+
+
+def zero_textarg(rng, pl):
+    """a text without a single token: empty, white space, punctuation, stop words (where the pipeline drops them)"""
+    pool = [t for t in ZERO_TEXTS if pl in ("default", "single", "html") or not re.search(r"\w", t)]
+    if pl == "html":
+        pool = pool + ["<b></b>", "&amp;", "<p>the</p>", "<>"]
+    r = rng.random()
+    if r < 0.75:
+        return ["s", enc(rng.choice(pool))]
+    return ["l"] + [enc(rng.choice(pool)) for _ in range(rng.randrange(0, 3))]
 
 
 def q_term(rng, ctx, depth):
@@ -299,13 +347,13 @@ def q_or(rng, ctx, depth):
     return s
 
 
-def gen_queries(rng, ctx, n, cmds):
+def gen_queries(rng, ctx, n, cmds, neg=0.28):
     for _ in range(n):
         q = q_or(rng, ctx, 0)
         r = rng.random()
         if r < 0.12:
             cmds.append(["qk", "apply", enc(q)])
-        elif r < 0.72:
+        elif r < 1.0 - neg:
             cmds.append(["q", rng.choice(QENTRY), enc(q)])
         else:
             cmds.append(["nq", rng.choice(NQENTRY), enc(q)])
@@ -327,6 +375,7 @@ def gen(rng, tier, idx):
     words = rng.sample(BASE_WORDS, nw)
     if rng.random() < 0.06:
         words.append(rng.choice(["İstanbul", "İ", "ı", "Kelvin"]))
+    words += special_words(rng, words)
     cmds = []
     docs = {}
     early, late = [], []
@@ -359,6 +408,30 @@ def gen(rng, tier, idx):
     def ctx():
         return (words, [v for k, v in docs.items() if k != 1000 and v is not None], stops, early, late)
 
+    def zero_episode(d):
+        """a document without tokens is indexed, then (often) removed / re-indexed, then NOT queries and an observation"""
+        cmds.append(["index", d] + zero_textarg(rng, pl))
+        docs[d] = []
+        if rng.random() < 0.4:
+            gen_queries(rng, ctx(), rng.randrange(1, 3), cmds, neg=0.7)
+        r = rng.random()
+        if r < 0.4:
+            cmds.append(["unindex", d])
+            docs.pop(d, None)
+        elif r < 0.55:
+            cmds.append(["index", d] + zero_textarg(rng, pl))
+        elif r < 0.7:
+            toks = gen_doc_tokens(rng, words, early, late)
+            cmds.append(["index", d] + gen_textarg(rng, toks, stops))
+            docs[d] = toks
+        elif r < 0.8:
+            cmds.append(["index", d, "n"])
+            docs[d] = None
+        if rng.random() < 0.7:
+            gen_queries(rng, ctx(), rng.randrange(1, 4), cmds, neg=0.7)
+        if rng.random() < 0.5:
+            cmds.append([rng.choice(["obs", "obs", "obsfresh"])])
+
     for _ in range(nops):
         r = rng.random()
         d = rng.choice(ids)
@@ -371,7 +444,9 @@ def gen(rng, tier, idx):
         elif r < 0.2:
             cmds.append(["index", d, "n"])
             docs[d] = None
-        elif r < 0.28 and docs.get(d):
+        elif r < 0.25:
+            zero_episode(d)
+        elif r < 0.33 and docs.get(d):
             # re-index the same or a slightly changed text
             toks = list(docs[d])
             if rng.random() < 0.6 and toks:
@@ -442,6 +517,19 @@ def features(case, outs):
     f = ["vocab:" + cd.get("vocab", "?"), "backend:" + cd.get("backend", "?"), "family:" + cd.get("family", "?"),
          "pipeline:" + "+".join(cd["pipeline"])]
     known = {}
+    toks = {}               # docid -> set of tokens (approximation of the pipeline, for measuring only)
+    stops = set(c15.stops()) if ("stop" in cd["pipeline"] or "single" in cd["pipeline"]) else set()
+    zero_gone = False       # a document without tokens was unindexed / re-indexed since the last reset
+
+    def tokens_of(c):
+        text = " ".join(dec(x) for x in c[3:])
+        if "html" in cd["pipeline"]:
+            text = re.sub(r"<[^<>]*>|&[A-Za-z]+;", " ", text)
+        ws = set(re.findall(r"\w+", text.lower())) - stops
+        if "single" in cd["pipeline"]:
+            ws = {w for w in ws if len(w) > 1}
+        return ws
+
     for c, o in zip(case["cmds"], outs):
         op = c[0]
         if o.startswith("err"):
@@ -452,15 +540,47 @@ def features(case, outs):
             same = prev not in ("new", "none") and now == "text" and prev == tuple(c[2:])
             f.append("index:%s->%s%s" % (prev if prev in ("new", "none") else "text", now, "(same)" if same else ""))
             known[c[1]] = "none" if c[2] == "n" else tuple(c[2:])
+            was_zero = c[1] in toks and not toks[c[1]]
+            if now == "text":
+                ws = tokens_of(c)
+                if not ws:
+                    f.append("zero-token-doc:index-%s" % ("again" if was_zero else "new" if c[1] not in toks else "over-text"))
+                elif was_zero:
+                    f.append("zero-token-doc:reindexed-with-text")
+                    zero_gone = True
+                toks[c[1]] = ws
+            else:
+                if was_zero:
+                    f.append("zero-token-doc:replaced-by-no-value")
+                    zero_gone = True
+                toks.pop(c[1], None)
         elif op == "unindex":
             f.append("unindex:%s" % ("known" if c[1] in known else "unknown"))
             known.pop(c[1], None)
+            if c[1] in toks and not toks[c[1]]:
+                f.append("zero-token-doc:unindexed")
+                zero_gone = True
+            toks.pop(c[1], None)
         elif op == "reset":
             known = {}
+            toks = {}
+            zero_gone = False
             f.append("reset")
+        elif op in ("obs", "obsfresh"):
+            f.append(op + (":after-zero-token-doc-removed" if zero_gone else ""))
         elif op in ("q", "nq", "qk"):
             q = dec(c[2])
             f.append("%s:%s:%s" % (op, c[1], "empty" if o == "{}" else "nonempty" if o.startswith("{") else o))
+            if op == "nq" and zero_gone:
+                f.append("nq:after-zero-token-doc-removed")
+            if op == "nq" and any(not ws for ws in toks.values()):
+                f.append("nq:zero-token-doc-present")
+            vocab = set().union(*toks.values()) if toks else set()
+            for g in re.findall(r"[\w*?]+", q.lower()):
+                for k in glob_classes(g, vocab):
+                    f.append(k)
+                    if "(" in k or "beyond" in k:
+                        f.append(k + ":" + op)
             if '"' in q or re.search(r"\w[-./']\w", q):
                 f.append("query:phrase")
                 if o.startswith("{") and o != "{}" and op == "q":
@@ -473,6 +593,9 @@ def features(case, outs):
                 f.append("query:or")
             if "(" in q:
                 f.append("query:paren")
+    for k in sorted(set(f)):
+        if k.startswith(("glob:", "nq:after", "nq:zero", "zero-token-doc:")) and k.count(":") == 1:
+            f.append("case:" + k)
     return f
 
 
